@@ -351,7 +351,7 @@ impl Harness for C13 {
         // ---- exhaustive lattices: every SEQUENCE of n points (order matters: scan order decides the
         // numbering of the clusters and which cluster a border point joins)
         //                 lattice          f64 n_max (q,t)  f32 n_max (q,t)
-        let lattices = [(Lattice::Line5, (6, 8), (4, 6)), (Lattice::Grid3, (4, 6), (3, 4)), (Lattice::Cube3, (4, 5), (0, 4)), (Lattice::Cube4, (3, 4), (0, 3))];
+        let lattices = [(Lattice::Line5, (6, 9), (4, 6)), (Lattice::Grid3, (4, 6), (3, 4)), (Lattice::Cube3, (4, 5), (0, 4)), (Lattice::Cube4, (3, 4), (0, 3))];
         let mut lattice_bounds = Vec::new();
         for width in [64u8, 32] {
             for (lat, n64, n32) in lattices {
@@ -368,9 +368,9 @@ impl Harness for C13 {
                 for n in 1..=nmax {
                     let a = lat.size();
                     let per_seq = lat.eps_list(t).len() * ms_cap.min(n + 1);
-                    // fix the first L points in the job so that a job stays below ~120k executions
+                    // fix the first L points in the job so that a job stays below ~120k (quick) / ~800k (thorough) executions
                     let mut l = 0usize;
-                    while l < n && a.pow((n - l) as u32) * per_seq > (if t { 600_000 } else { 120_000 }) {
+                    while l < n && a.pow((n - l) as u32) * per_seq > (if t { 800_000 } else { 120_000 }) {
                         l += 1;
                     }
                     for metric in ["euclidean", "manhattan"] {
@@ -384,7 +384,7 @@ impl Harness for C13 {
                             let pname: String = prefix.iter().map(|p| format!("{:x}", p)).collect();
                             jobs.push(Job::new(
                                 format!("{}-f{}-n{}-{}{}", lat.name(), width, n, &metric[..3], if l > 0 { format!("-p{}", pname) } else { String::new() }),
-                                json!({"kind": "lattice", "lattice": lat.name(), "n": n, "metric": metric, "width": width, "prefix": prefix, "ms_cap": ms_cap, "thorough": t}),
+                                json!({"kind": "lattice", "lattice": lat.name(), "n": n, "metric": metric, "width": width, "prefix": prefix, "ms_cap": ms_cap, "thorough": t, "level_size": a.pow(n as u32) * per_seq}),
                             ));
                         }
                     }
@@ -488,9 +488,9 @@ impl Harness for C13 {
         // simplest first: small lattice jobs, then multisets and structured sets, the largest
         // sequence enumerations last (a wall budget that runs out then cuts those)
         jobs.sort_by_key(|j| match j.kind() {
-            "lattice" if j.params["prefix"].as_array().map(|p| p.is_empty()).unwrap_or(true) => 0,
-            "lattice" => 2,
-            _ => 1,
+            "lattice" if j.params["prefix"].as_array().map(|p| p.is_empty()).unwrap_or(true) => (0, 0),
+            "lattice" => (2, j.params["level_size"].as_u64().unwrap_or(0)),
+            _ => (1, 0),
         });
         let tf = data::seed_transform(seed);
         for j in jobs.iter_mut() {
